@@ -281,9 +281,11 @@ pub fn filter_eq_f64(values: &[f64], threshold: f64, result: &mut [u64]) {
         }
     }
 
+    // The tail must use the same exact comparison as the SIMD body (cmp_eq).
     let start = chunks * 4;
     for i in start..values.len() {
-        if (values[i] - threshold).abs() < f64::EPSILON {
+        #[allow(clippy::float_cmp)]
+        if values[i] == threshold {
             result[i / 64] |= 1u64 << (i % 64);
         }
     }
